@@ -4,10 +4,13 @@
    of the offending chunk in every stream) and every inflater.  Every rejection poisons the decoder (st = None), and by
    C07_update_terminates_and_progresses / C07_poisoned_returns_at_once no later call can return anything but an error: that is the
    `no later than the affected frame, never a successful frame` part.  Rules enforced above the stream machine (missing image data,
-   undefined filter byte, too-short data) are decided by the correspondence harness against the reference automaton/decoder. *)
+   undefined filter byte, too-short data) are decided by the correspondence harness against the reference automaton/decoder.
+   KNOWN FINDING (C10_refuted_zero_length_second_ihdr): the once-only rules are decisions of the chunk PARSERS, and a chunk whose length field is 0 never reaches
+   its parser - a second IHDR / PLTE of length zero is skipped.  Recorded in known_findings.json; every other length is covered by the decision theorems. *)
 From PngV Require Import Base.Bytes Base.Crc Base.Inflate Base.Utf8 Gen.GenStream Model.Stream Model.StreamRun Model.StreamExec Proofs.StreamProofs Proofs.StreamDecisions.
 From RecordUpdate Require Import RecordSet.
 Import RecordSetNotations.
+From PngV Require Import Model.StreamRun Model.StreamExec Proofs.ZeroLengthChunk.
 
 (* wrong signature (first 4 bytes) *)
 Theorem C10_wrong_signature_first_half :
@@ -139,6 +142,12 @@ Theorem C10_rejection_is_final :
        st s = None -> update zinf zall utf8_valid s buf = (s, UErr EParamPolledAfterFatal).
 Proof. exact poisoned_is_absorbing. Qed.
 
+(* KNOWN FINDING witness (not a property theorem): a second IHDR of length 0 is skipped by the model (= the code) and the stream decodes to IEND; the same chunk with its 13 bytes is refused as a duplicate *)
+Theorem C10_refuted_zero_length_second_ihdr :
+  snd (fst (l0_run 17 67108864 [] zero_length_second_ihdr)) = RImageEnd 0 /\
+       snd (fst (l0_run 17 67108864 [] second_ihdr_with_payload)) = RErr (EFormat FDuplicateChunk).
+Proof. exact zero_length_second_ihdr_refuted. Qed.
+
 (* ---- non-vacuity on the executable model: fdAT before any fcTL in an otherwise valid stream; IDAT, tEXt, IDAT *)
 Example C10_nonvacuous_validate : validate_fctl (mk_info 8 8 8 0 false [] None None []) (mk_fctl 0 3 3 5 5 0 0 0 0) = Ok tt
   /\ validate_fctl (mk_info 8 8 8 0 false [] None None []) (mk_fctl 0 4 3 5 5 0 0 0 0) = Err (EFormat FBadSubFrameBounds)
@@ -157,3 +166,4 @@ Print Assumptions C10_fdAT_needs_fcTL_and_four_bytes.
 Print Assumptions C10_fdAT_sequence_numbers.
 Print Assumptions C10_frame_rectangle_validated_exactly.
 Print Assumptions C10_rejection_is_final.
+Print Assumptions C10_refuted_zero_length_second_ihdr.
